@@ -41,6 +41,9 @@ pub fn build_path(p: &PathSpec) -> Path {
     }
     let mut path = pb.finish();
     path.winding = if p.evenodd { Winding::EvenOdd } else { Winding::NonZero };
+    if let Some(tol) = &p.flatten {
+        path = path.flatten(tol.0);
+    }
     if let Some(style) = &p.stroke_first {
         // the user-space outline exactly as DrawTarget::stroke builds it for a polyline
         let style = build_style(style);
@@ -109,21 +112,28 @@ pub fn build_source<'a>(s: &'a SrcSpec) -> Source<'a> {
             Source::new_sweep_gradient(build_gradient(stops), pt(center), a0.0, a1.0, spread(*sp))
         }
     };
+    let compose = |src: Source<'a>, pre: &Mat| -> Source<'a> {
+        let pre = mat(pre);
+        match src {
+            Source::Solid(c) => Source::Solid(c),
+            Source::Image(i, e, f, t) => Source::Image(i, e, f, pre.then(&t)),
+            Source::RadialGradient(g, sp, t) => Source::RadialGradient(g, sp, pre.then(&t)),
+            Source::TwoCircleRadialGradient(g, sp, c1, r1, c2, r2, t) => {
+                Source::TwoCircleRadialGradient(g, sp, c1, r1, c2, r2, pre.then(&t))
+            }
+            Source::LinearGradient(g, sp, t) => Source::LinearGradient(g, sp, pre.then(&t)),
+            Source::SweepGradient(g, sp, a0, a1, t) => Source::SweepGradient(g, sp, a0, a1, pre.then(&t)),
+        }
+    };
+    // first the source's own (user supplied) transform, then - outermost - the twin's CTM^-1, so
+    // that both executions associate the matrix products the same way
+    let src = match &s.user_xf {
+        None => src,
+        Some(u) => compose(src, u),
+    };
     match &s.pre {
         None => src,
-        Some(pre) => {
-            let pre = mat(pre);
-            match src {
-                Source::Solid(c) => Source::Solid(c),
-                Source::Image(i, e, f, t) => Source::Image(i, e, f, pre.then(&t)),
-                Source::RadialGradient(g, sp, t) => Source::RadialGradient(g, sp, pre.then(&t)),
-                Source::TwoCircleRadialGradient(g, sp, c1, r1, c2, r2, t) => {
-                    Source::TwoCircleRadialGradient(g, sp, c1, r1, c2, r2, pre.then(&t))
-                }
-                Source::LinearGradient(g, sp, t) => Source::LinearGradient(g, sp, pre.then(&t)),
-                Source::SweepGradient(g, sp, a0, a1, t) => Source::SweepGradient(g, sp, a0, a1, pre.then(&t)),
-            }
-        }
+        Some(pre) => compose(src, pre),
     }
 }
 
@@ -481,9 +491,11 @@ pub fn apply_simple<B: AsRef<[u32]> + AsMut<[u32]>>(dt: &mut DrawTarget<B>, shad
             shadow.brackets.push((Bracket::ClipPath(p.clone()), shadow.ctm));
         }
         Op::PopClip => {
-            if let Some((Bracket::ClipRect(_), _)) | Some((Bracket::ClipPath(_), _)) = shadow.brackets.last() {
+            // raqote pops its clip stack whatever the layer stack looks like: remove the most
+            // recently pushed clip bracket (not necessarily the top one)
+            if let Some(i) = shadow.brackets.iter().rposition(|b| !matches!(b.0, Bracket::Layer)) {
                 dt.pop_clip();
-                shadow.brackets.pop();
+                shadow.brackets.remove(i);
             }
         }
         Op::PushLayer { opacity, blend, plain } => {
@@ -495,8 +507,8 @@ pub fn apply_simple<B: AsRef<[u32]> + AsMut<[u32]>>(dt: &mut DrawTarget<B>, shad
             shadow.brackets.push((Bracket::Layer, shadow.ctm));
         }
         Op::PopLayer => {
-            if let Some((Bracket::Layer, _)) = shadow.brackets.last() {
-                shadow.brackets.pop();
+            if let Some(i) = shadow.brackets.iter().rposition(|b| matches!(b.0, Bracket::Layer)) {
+                shadow.brackets.remove(i);
                 dt.pop_layer();
             }
         }
@@ -574,6 +586,9 @@ pub fn install_panic_hook() {
         } else {
             "<non-string payload>".to_string()
         };
+        if std::env::var_os("SIM_LOUD").is_some() {
+            eprintln!("panic at {}: {}", loc, msg);
+        }
         LAST_PANIC.with(|p| *p.borrow_mut() = Some((loc, msg)));
     }));
 }
